@@ -20,11 +20,15 @@ CLAIMED = {
              "out-of-bounds access, the Apache-style parse and the INI-style parse (incl. bounded ${} expansion of self- "
              "and mutually referential values) return a result or an error for EVERY input; correspondence: exhaustive "
              "short strings over each grammar's significant bytes, grammar-aware mutated documents, lines around "
-             "MAX_LINESIZE, deep nesting, under ASan with a per-call watchdog.",
+             "MAX_LINESIZE, deep nesting, under ASan with a per-call watchdog. qconfig_parse_file's @INCLUDE loop "
+             "(model over an abstract file system path -> content): iniParseFile_total - a table or an error for every file "
+             "system incl. self- and mutually including files (budget _MAX_INCLUDES regenerated from the source); "
+             "correspondence over real temporary files: cycles, missing files, paths around PATH_MAX, directives not at the "
+             "beginning of a line, repeated directive text.",
         note="trusted: Lean kernel, hand transcription of the decoder loops (validated on explored inputs), gcc/ASan; "
-             "wall-clock termination of compiled code is observed by timeouts, the theorem is about fuel; @INCLUDE / "
-             "qconfig_parse_file, popen of ${!cmd} (stubbed on both sides) are out of model. Eight defects of the pinned "
-             "tree repaired first.",
+             "wall-clock termination of compiled code is observed by timeouts, the theorem is about fuel; the include loop's buffer accesses are "
+             "list operations in the model (its PATH_MAX overflow was found by the harness under ASan); popen of ${!cmd} "
+             "is stubbed on both sides. Twelve defects of the pinned tree repaired first.",
         technique="Lean 4 proof (loop invariants on an in-place buffer, induction on fuel) + differential correspondence under ASan",
         design="7/C17"),
 }
